@@ -126,6 +126,8 @@ def run(res, tier, seed):
             samples = []
             for i in lines_sampled:
                 for p in range(0, W, 3):
+                    if abs(float(counts[i, p]) - smoothed[2][i]) < 1e-6:
+                        continue    # scene count equal to the smoothed space count: float rounding decides (exact in the model)
                     samples.append("(%d%%nat, %d, %s)" % (i, int(counts[i, p]), common.flit(float(out[i, p]))))
             coq.append(("(%d%%nat, %d%%nat, %s, %s, %s, %s, %d, [%s])" % (
                 order.index(sc), chan, common.zpack(lns), common.zpack(prt3), common.zpack([x[chan] for x in ict10]),
